@@ -709,9 +709,9 @@ def build_wb(ctx):
     h = os.path.join(vplib.VERIF, "harness")
     return ctx.build_harness("selfcal_wb", san=True,
                              extra=[os.path.join(h, "selfcal_wb_simple.c"), os.path.join(h, "selfcal_wb_auto.c"),
-                                    os.path.join(h, "selfcal_wb_pvalue.c")],
+                                    os.path.join(h, "selfcal_wb_pvalue.c"), os.path.join(h, "selfcal_wb_trl.c")],
                              exclude=("vnacal_new_solve_simple.c", "vnacal_new_solve_auto.c",
-                                      "vnacal_new_solve_pvalue.c"))
+                                      "vnacal_new_solve_pvalue.c", "vnacal_new_solve_trl.c"))
 
 
 def parse_wb(out):
@@ -936,3 +936,192 @@ def build_trl_shaped(rng, sid, typ, variant, order=None):
     sc.meta.update({"family": "trl_shaped", "variant": variant, "type": typ,
                     "m_error": variant == "trl_with_merror"})
     return sc
+
+
+# ----------------------------------------------------------------------------- partial standards in TRL-sized calibrations
+TRL_PARTIAL_VARIANTS = ["single1_single2_through", "single2_double_through", "single1_double_through",
+                        "line_single2_through", "double2unk_single2known_through", "single2_single2_through",
+                        "reflect_line_single1"]
+
+
+def build_trl_partial(rng, sid, typ, variant, order):
+    """2x2, exactly three standards and exactly two unknown parameters, at least one of the standards
+    with absent S cells (single reflect: [u N; N N] completed by the library to [u 0; 0 N] resp.
+    [N 0; 0 u]).  _vnacal_new_solve_is_trl passes its count tests and classifies the standards.
+    Records sc.std_cells with A for an absent cell."""
+    nf, n = 1, 2
+    em = ErrorModel(rng, typ, n, nf)
+    sc = Scenario(sid, typ, n, default_freqs(nf))
+    sc.em = em
+    ids = {}
+
+    def tok(name):
+        if name is None:
+            return "A"
+        if name in ("zero", "match"):
+            return "Z"
+        if name in ("one", "open"):
+            return "O"
+        if name not in ids:
+            ids[name] = len(ids)
+        kind = "U" if name in sc.guess else ("C" if name in sc.truth else "K")
+        return "%s%d" % (kind, ids[name])
+
+    def unk(name):
+        t = crand(rng, 0.4, 0.9)
+        return sc.unknown([t], [t * (1.0 + crand(rng, 0.01, 0.04))], name), t
+
+    def single(name, truth, port):
+        full = _embed(n, (port,), [[truth]], rng)
+        cells = [name, "zero", "zero", None] if port == 1 else [None, "zero", "zero", name]
+        return ("single", (name, port), full, cells)
+
+    def double(n1, t1, n2, t2):
+        return ("double", (n1, n2), [[t1, 0], [0, t2]], [n1, "zero", "zero", n2])
+    through = ("through", None, [[0, 1], [1, 0]], ["zero", "one", "one", "zero"])
+    u1, t1 = unk("u1")
+    u2, t2 = unk("u2")
+    if variant == "single1_single2_through":
+        items = [single(u1, t1, 1), single(u2, t2, 2), through]
+    elif variant == "single2_double_through":
+        items = [single(u1, t1, 2), double(u2, t2, u2, t2), through]
+    elif variant == "single1_double_through":
+        items = [single(u1, t1, 1), double(u2, t2, u2, t2), through]
+    elif variant == "line_single2_through":
+        items = [("line", None, [[0, t1], [t1, 0]], ["zero", u1, u1, "zero"]), single(u2, t2, 2), through]
+    elif variant == "double2unk_single2known_through":
+        k = crand(rng, 0.5, 0.9)
+        items = [double(u1, t1, u2, t2), single(sc.known([k]), k, 2), through]
+    elif variant == "single2_single2_through":
+        items = [single(u1, t1, 2), single(u2, t2, 2), through]
+    else:   # reflect_line_single1: T missing, R and L present, third standard partial
+        k = crand(rng, 0.5, 0.9)
+        items = [double(u1, t1, u1, t1), ("line", None, [[0, t2], [t2, 0]], ["zero", u2, u2, "zero"]),
+                 single(sc.known([k]), k, 1)]
+    sc.std_cells = []
+    for i in order:
+        kind, arg, truth, cells = items[i]
+        ms = [em.measure(truth, 0)]
+        if kind == "single":
+            sc.add_single(arg[0], arg[1], ms)
+        elif kind == "double":
+            sc.add_double(arg[0], arg[1], 1, 2, ms)
+        elif kind == "through":
+            sc.add_through(1, 2, ms)
+        else:
+            sc.add_line(cells, 1, 2, ms)
+        sc.std_cells.append([tok(x) for x in cells])
+    sc.meta.update({"family": "trl_partial", "variant": variant, "type": typ, "order": list(order), "m_error": False})
+    return sc
+
+
+def build_unequal_systems(rng, sid, typ, n=2, k_first=7, k_other=2, merror="merror 1 - 1e-3 1e-2"):
+    """UE14 / E12: many single reflects on port 1, few on the other ports, one through: the linear
+    system of column 1 is over-determined, the others are not, so that with measurement-error
+    modelling _vnacal_new_solve_init allocates the V matrix of system 0 only."""
+    nf = 1
+    em = ErrorModel(rng, typ, n, nf)
+    sc = Scenario(sid, typ, n, default_freqs(nf))
+    sc.em = em
+    t = [[0, 1], [1, 0]]
+    sc.add_through(1, 2, [em.measure(_embed(n, (1, 2), t, rng), 0)])
+    for port in range(1, n + 1):
+        for k in range(k_first if port == 1 else k_other):
+            g = rand_reflect(rng, k)
+            sc.add_single(sc.known([g]), port, [em.measure(_embed(n, (port,), [[g]], rng), 0)])
+    if merror:
+        sc.cmd(merror)
+    sc.meta.update({"family": "unequal_systems", "type": typ, "n": n})
+    return sc
+
+
+# ----------------------------------------------------------------------------- checked-memory walks (GuardModel)
+def guard_compare(ctx, wb, drv, sc):
+    """Run `wbguard` (harness/selfcal_harness.c, white-box build) on the scenario's calibration and
+    compare the three walks with the extracted coq/SelfCal/GuardModel.v on the same pointer shapes
+    and markers.  Returns a dict: crash (sanitizer signature or None), s (ok, detail, cells seen),
+    shape / save / restore (ok, detail), stats."""
+    lines = [l for l in sc.lines if l != "solve" and not l.startswith(("getparam", "apply"))]
+    text = "\n".join(lines + ["wbguard", "end"]) + "\n"
+    rc, out, err = vplib.sh([wb], input=text, timeout=120, env=run_env(ctx))
+    res = {"crash": None, "s": (None, ""), "shape": (None, ""), "save": (None, ""), "restore": (None, ""),
+           "stats": {}, "stderr": err[-2000:]}
+    if rc != 0 or "wb guard done" not in out:
+        res["crash"] = vplib.asan_signature(err) or {"kind": "fault", "error": "exit %d" % rc, "function": None}
+        return res
+    rec = {"scells": {}, "sbefore": {}, "safter": {}, "vshape": {}, "vafter": []}
+    for line in out.splitlines():
+        p = line.split()
+        if len(p) < 2 or p[0] != "wb":
+            continue
+        if p[1] == "sdim":
+            rec["sdim"] = [int(x) for x in p[2:]]
+        elif p[1] in ("scells", "sbefore", "safter"):
+            rec[p[1]][int(p[2])] = p[3:]
+        elif p[1] == "vdim":
+            rec["vdim"] = [int(x) for x in p[2:]]
+        elif p[1] == "vshape":
+            rec["vshape"][int(p[2])] = p[3:]
+        elif p[1] == "vbuf":
+            rec["vbuf"] = p[2:]
+        elif p[1] == "vafter":
+            rec["vafter"].append((int(p[2]), int(p[3]), p[4:]))
+    sr, scn, nstd, nunk, nf = rec["sdim"]
+    # ---- update_s_matrices
+    pv = " ".join(str(1000 * (u + 1) + f) for u in range(nunk) for f in range(nf))
+    q = "updates %d %d %d %d 0 %s %d %s" % (
+        sr, scn, nunk, nf, pv, nstd,
+        " ".join(" ".join(rec["scells"][i]) + " " + " ".join(rec["sbefore"][i]) for i in range(nstd)))
+    got_c = [v for i in range(nstd) for v in rec["safter"][i]]
+    systems, v_cells, nstd2, ups, merr = rec["vdim"][:5]
+    eqc = rec["vdim"][5:]
+    qs = [q, "vinit %d %d %d %d %s" % (v_cells, merr, ups, systems, " ".join(map(str, eqc)))]
+    # ---- V matrices: shapes as observed, markers as the harness wrote them
+    marker = 1
+    sv, rs = [], []
+    for i in range(nstd):
+        sh_ = rec["vshape"][i]
+        if sh_ == ["-"]:
+            sv.append("-")
+            rs.append("-")
+            continue
+        a, b = ["v"], ["v"]
+        for t in sh_:
+            if t == "N":
+                a.append("N")
+                b.append("N")
+            else:
+                a.append("P " + " ".join(str(marker + c) for c in range(v_cells)))
+                b.append("P " + " ".join(str(9000 + c) for c in range(v_cells)))
+                marker += v_cells
+        sv.append(" ".join(a))
+        rs.append(" ".join(b))
+    blen = nstd * systems * v_cells
+    qs.append("vsave %d %d %d %s %d %s" % (systems, v_cells, nstd, " ".join(sv), blen, " ".join(["7777"] * blen)))
+    qs.append("vrestore %d %d %d %s %d %s" % (systems, v_cells, nstd, " ".join(rs), blen, " ".join(rec.get("vbuf", []))))
+    rc, mout, merr_ = vplib.sh([drv], input="\n".join(qs) + "\n", timeout=120)
+    ml = [l.split() for l in mout.splitlines() if l]
+    if rc != 0 or len(ml) != 4:
+        for k in ("s", "shape", "save", "restore"):
+            res[k] = (False, "model driver failed: %s" % merr_[-200:])
+        return res
+    mu, mi, ms, mr = ml
+    ncells_absent = sum(1 for i in range(nstd) for t in rec["scells"][i] if t == "N")
+    ncells_unknown = sum(1 for i in range(nstd) for t in rec["scells"][i] if t.startswith("U"))
+    res["stats"] = {"absent_cells": ncells_absent, "unknown_cells": ncells_unknown,
+                    "null_vectors": sum(1 for i in range(nstd) if rec["vshape"][i] == ["-"]),
+                    "null_matrices": sum(rec["vshape"][i].count("N") for i in range(nstd)),
+                    "present_matrices": sum(rec["vshape"][i].count("P") for i in range(nstd))}
+    ok = mu[:2] == ["updates", "ok"] and mu[2:] == got_c
+    res["s"] = (ok, "" if ok else "%s: cells %s: s matrices after update_s_matrices %s, model %s"
+                % (sc.sid, [rec["scells"][i] for i in range(nstd)], got_c, mu[1:]))
+    want_shape = mi[1:]
+    bad = [i for i in range(nstd) if rec["vshape"][i] != want_shape]
+    res["shape"] = (not bad, "" if not bad else "%s: standard %d: V vector shape %s, model of _vnacal_new_solve_init %s "
+                    "(equation counts %s, unknowns %d, m_error %d)" % (sc.sid, bad[0], rec["vshape"][bad[0]], want_shape, eqc, ups, merr))
+    ok = ms[:2] == ["vsave", "ok"] and ms[2:] == rec.get("vbuf", [])
+    res["save"] = (ok, "" if ok else "%s: buffer after save_v_matrices %s, model %s" % (sc.sid, rec.get("vbuf"), ms[1:]))
+    got_r = [v for (_, _, vals) in rec["vafter"] for v in vals]
+    ok = mr[:2] == ["vrestore", "ok"] and mr[2:] == got_r
+    res["restore"] = (ok, "" if ok else "%s: V matrices after restore_v_matrices %s, model %s" % (sc.sid, got_r, mr[1:]))
+    return res
